@@ -241,3 +241,10 @@ Print Assumptions conversion_keeps_shape.
 Theorem observation_eq_sound : forall a b, T_eqb a b = true <-> a = b.
 Proof. exact T_eqb_iff. Qed.
 Print Assumptions observation_eq_sound.
+
+(* the Pcheck code of a differential case is 1 exactly when the two observations are equal
+   (4 marks the known class "expired transaction delivered as CheckedTransaction", 0 any other
+   difference) *)
+Theorem differential_code_sound : forall a b, diff_code a b = 1%Z <-> a = b.
+Proof. exact diff_code_one. Qed.
+Print Assumptions differential_code_sound.
